@@ -39,6 +39,13 @@ def run(ck):
     ck.run_rule(g6_colour_tables)
     ck.run_rule(g7_g8_g9_pawns)
     ck.run_rule(g10_perft)
+    ck.run_rule(g11_list_handover)
+    # the king, knight and pawn move lists are read off C09's leaper tables and offsets: their geometry (C09's M7, M8, leaper tables)
+    from . import c09 as _c09
+    _c9 = {}
+    ck.run_rule(_c09.m7_offsets_and_masks, _c9)
+    ck.run_rule(_c09.m8_no_wrap)
+    ck.run_rule(_c09.leaper_tables, _c9)
     # perft counts and castling availability along a line of play also rest on the successor function: the rights / board updates of C02
     from . import c02 as _c02
     _ctx = {}
@@ -653,6 +660,51 @@ def _adds_borrowed_counter(pr, tb, bb, s):
                             if dd[0] == "assign" and "use" in dd[3]:
                                 work.extend(operand_locals(dd[3]["use"]))
     return False
+
+
+HANDOVER_NEUTRAL = ("::shrink_to_fit", "::reserve", "::reserve_exact")
+
+
+def g11_list_handover(ck):
+    """G11: between the generator loop and the caller the list is only handed over. Following compute_legal_moves' returned value through the
+    calls that carry it (Into::into, MoveSet::new) down to the MoveSet aggregate, no function of that chain calls anything else: nothing
+    is removed from, merged in or reordered in the generated list on the way out."""
+    prog = ck.prog
+    root = ck.body(MG + "compute_legal_moves", "G11")
+    allowed_root = {MG + "compute_legal_moves_into", "weechess_core::movegen::MoveGenerationBuffer::new"}
+    cur, chain, done = root, [], False
+    for depth in range(5):
+        paths = decision_table(prog, cur)
+        rets = {p.ret for p in paths}
+        nxt = None
+        ok_shape = len(rets) == 1
+        r = list(rets)[0] if ok_shape else None
+        if ok_shape and r is not None and r[0] == "call" and prog.body(r[1]) is not None:
+            nxt = r[1]
+        elif ok_shape and r is not None and r[0] == "agg" and r[1].startswith("weechess_core::moves::MoveSet"):
+            done = True
+        else:
+            ok_shape = False
+        ck.req(ok_shape, "G11.shape", cur.name.split("::")[-1], cur.where(),
+               "%s does not return the list through one call or the MoveSet aggregate (%s)" % (cur.name, sorted(show(x) if x else "?" for x in rets)))
+        if not ok_shape:
+            return
+        extra = set()
+        for p in paths:
+            for e in p.calls():
+                if e[1] == nxt or (cur is root and e[1] in allowed_root) or e[1].endswith(HANDOVER_NEUTRAL):
+                    continue
+                extra.add(e[1])
+        chain.append(cur.name)
+        ck.req(not extra, "G11.handover", cur.name.split("::")[-1], cur.where(),
+               "%s calls %s on the way from the generator to the caller: the generated list must be handed over untouched" % (
+                   cur.name, ", ".join(sorted(x.split("::")[-1] for x in extra))), "only hands the list over")
+        if done:
+            break
+        cur = ck.body(nxt, "G11")
+    ck.req(done, "G11.shape", "chain", root.where(), "no MoveSet aggregate found within 5 calls of compute_legal_moves' return value")
+    ck.floor("G11", len(chain), 2, "functions handing the generated list over")
+    ck.extra["handover_chain"] = chain
 
 
 def g10_perft(ck):
